@@ -223,11 +223,103 @@ impl Side {
   }
 }
 
+/// Man-in-the-middle rewriting of the byte stream flowing towards side A. Positions refer to
+/// offsets in the original (unmodified) stream.
+#[derive(Clone, Debug, Serialize, Deserialize)]
+pub enum MitmOp {
+  /// Replace `del` original bytes starting at `pos` by `ins` (insert / delete / overwrite).
+  Replace { pos: usize, del: usize, ins: Vec<u8> },
+  /// Flip one bit of the original byte at `pos`.
+  Flip { pos: usize, bit: u8 },
+  /// Drop everything from `pos` on.
+  Truncate { pos: usize },
+}
+
+impl MitmOp {
+  pub fn pos(&self) -> usize {
+    match self {
+      MitmOp::Replace { pos, .. } | MitmOp::Flip { pos, .. } | MitmOp::Truncate { pos } => *pos,
+    }
+  }
+}
+
+#[derive(Default)]
+pub struct Mitm {
+  ops: Vec<MitmOp>,
+  seen: usize,
+  skip_until: usize,
+  pub truncated: bool,
+  pub applied: usize,
+}
+
+impl Mitm {
+  pub fn new(mut ops: Vec<MitmOp>) -> Self {
+    ops.sort_by_key(|o| o.pos());
+    Self { ops, seen: 0, skip_until: 0, truncated: false, applied: 0 }
+  }
+  /// Transforms the next segment of the original stream.
+  pub fn pass(&mut self, seg: &[u8]) -> Vec<u8> {
+    let mut out = Vec::with_capacity(seg.len());
+    for &byte in seg {
+      let pos = self.seen;
+      self.seen += 1;
+      if self.truncated {
+        continue;
+      }
+      let mut b = byte;
+      let mut drop_byte = pos < self.skip_until;
+      for op in self.ops.iter().filter(|o| o.pos() == pos) {
+        self.applied += 1;
+        match op {
+          MitmOp::Replace { del, ins, .. } => {
+            out.extend_from_slice(ins);
+            if *del > 0 {
+              self.skip_until = self.skip_until.max(pos + del);
+              drop_byte = true;
+            }
+          }
+          MitmOp::Flip { bit, .. } => b ^= 1 << (bit % 8),
+          MitmOp::Truncate { .. } => {
+            self.truncated = true;
+          }
+        }
+      }
+      if self.truncated {
+        continue;
+      }
+      if !drop_byte {
+        out.push(b);
+      }
+    }
+    out
+  }
+  /// Inserts positioned at or after the end of the original stream.
+  pub fn tail(&mut self) -> Vec<u8> {
+    let mut out = Vec::new();
+    if self.truncated {
+      return out;
+    }
+    for op in self.ops.iter().filter(|o| o.pos() >= self.seen) {
+      if let MitmOp::Replace { ins, .. } = op {
+        self.applied += 1;
+        out.extend_from_slice(ins);
+      }
+    }
+    self.ops.retain(|o| o.pos() < self.seen);
+    out
+  }
+}
+
 /// A pair of engines joined by two byte queues, driven by a delivery schedule.
 pub struct Pair {
   pub a: Side,
   pub b: Side,
   pub steps: u64,
+  /// Optional rewriting of the B→A stream.
+  pub mitm_to_a: Option<Mitm>,
+  /// The unmodified B→A stream (recorded for aiming mutations).
+  pub orig_to_a: Vec<u8>,
+  pub last_chunk: usize,
 }
 
 /// One schedule step: direction (true = deliver to A, i.e. B→A) and byte count.
@@ -235,17 +327,38 @@ pub type Step = (bool, u16);
 
 impl Pair {
   pub fn new(a: ZmtpEngine, b: ZmtpEngine) -> Self {
-    let mut p = Self { a: Side::new(a), b: Side::new(b), steps: 0 };
+    Self::with_mitm(a, b, None)
+  }
+
+  pub fn with_mitm(a: ZmtpEngine, b: ZmtpEngine, mitm: Option<Mitm>) -> Self {
+    let mut p = Self { a: Side::new(a), b: Side::new(b), steps: 0, mitm_to_a: mitm, orig_to_a: Vec::new(), last_chunk: 0 };
     let wa = p.a.start();
     p.b.inbox.extend(wa);
     let wb = p.b.start();
-    p.a.inbox.extend(wb);
+    p.enqueue_to_a(wb);
     p
+  }
+
+  fn enqueue_to_a(&mut self, wire: Vec<u8>) {
+    self.orig_to_a.extend_from_slice(&wire);
+    let wire = match &mut self.mitm_to_a {
+      Some(m) => m.pass(&wire),
+      None => wire,
+    };
+    self.a.inbox.extend(wire);
+  }
+
+  /// Appends the MITM's trailing inserts (positions beyond the end of the original stream).
+  pub fn flush_mitm_tail(&mut self) {
+    if let Some(m) = &mut self.mitm_to_a {
+      let t = m.tail();
+      self.a.inbox.extend(t);
+    }
   }
 
   /// Moves up to `n` in-flight bytes to the chosen side. Returns false if nothing moved.
   pub fn deliver(&mut self, to_a: bool, n: usize) -> bool {
-    let (dst, src) = if to_a { (&mut self.a, &mut self.b) } else { (&mut self.b, &mut self.a) };
+    let dst = if to_a { &mut self.a } else { &mut self.b };
     if !dst.open {
       dst.inbox.clear();
       return false;
@@ -255,14 +368,19 @@ impl Pair {
       return false;
     }
     let chunk: Vec<u8> = dst.inbox.drain(..n).collect();
+    self.last_chunk = chunk.len();
     let wire = dst.feed(&chunk);
-    self.steps += 1;
-    if src.open {
-      src.inbox.extend(wire);
-    }
     if !dst.open {
       // dst failed: its driver closes the link; the other side will see EOF.
       dst.inbox.clear();
+    }
+    self.steps += 1;
+    if to_a {
+      if self.b.open {
+        self.b.inbox.extend(wire);
+      }
+    } else if self.a.open {
+      self.enqueue_to_a(wire);
     }
     true
   }
@@ -300,16 +418,20 @@ impl Pair {
 
   /// Application sends a message from one side; bytes are queued to the other.
   pub fn app_send(&mut self, from_a: bool, msg: rzmq::FrameBatch) -> Vec<AppEvt> {
-    let (src, dst) = if from_a { (&mut self.a, &mut self.b) } else { (&mut self.b, &mut self.a) };
+    let src = if from_a { &mut self.a } else { &mut self.b };
     let out = src.eng.on_app_message(msg);
     let mut wire = Vec::new();
     let mut evts = Vec::new();
     absorb(out, &mut wire, &mut evts);
     src.sent.extend_from_slice(&wire);
-    if dst.open {
-      dst.inbox.extend(wire);
-    }
     src.apps.extend(evts.clone());
+    if from_a {
+      if self.b.open {
+        self.b.inbox.extend(wire);
+      }
+    } else if self.a.open {
+      self.enqueue_to_a(wire);
+    }
     evts
   }
 }
